@@ -370,6 +370,20 @@ func (c *client) sendErrorToAll(err error) {
 	c.mutex.Unlock()
 }
 
+// sendErrorToAllAndStopReadLoop is the variant of sendErrorToAll for errors that end the read loop. It marks the
+// read loop as stopped under the same hold of the mutex that delivers the error: an Execute call that registers
+// its entry afterwards must see that no read loop will serve it, and start a new one (which fails the same way),
+// instead of waiting for a result forever.
+func (c *client) sendErrorToAllAndStopReadLoop(err error) {
+	result := NewErrorExecutionResult(err)
+	c.mutex.Lock()
+	for runID := range c.runningStepResultEntries {
+		c.sendExecutionResult(runID, result)
+	}
+	c.readLoopRunning = false
+	c.mutex.Unlock()
+}
+
 func (c *client) handleWorkDoneMessage(runtimeMessage DecodedRuntimeMessage) {
 	var doneMessage WorkDoneMessage
 	var result ExecutionResult
@@ -417,7 +431,7 @@ func (c *client) handleErrorMessage(runtimeMessage DecodedRuntimeMessage) bool {
 	resultMsg := fmt.Errorf("step with run ID %q sent error message: %s", runtimeMessage.RunID, errorMessageStr)
 	c.logger.Errorf(resultMsg.Error())
 	if errMessage.ServerFatal {
-		c.sendErrorToAll(resultMsg)
+		c.sendErrorToAllAndStopReadLoop(resultMsg)
 		return true // It's server fatal, so this is the last message from the server.
 	} else if errMessage.StepFatal {
 		if runtimeMessage.RunID == "" {
@@ -450,13 +464,14 @@ func (c *client) stopReadLoopIfIdle() bool {
 }
 
 func (c *client) executeReadLoop(cborReader *cbor.Decoder) {
-	// Set when the loop has already marked itself as stopped (see stopReadLoopIfIdle). A new read loop may have
-	// been started since, so the flag must not be touched again in that case.
-	stoppedWhenIdle := false
+	// Set when the loop has already marked itself as stopped (see stopReadLoopIfIdle and
+	// sendErrorToAllAndStopReadLoop). A new read loop may have been started since, so the flag must not be
+	// touched again in that case.
+	alreadyStopped := false
 	defer func() {
 		c.mutex.Lock()
 		defer c.mutex.Unlock()
-		if !stoppedWhenIdle {
+		if !alreadyStopped {
 			c.readLoopRunning = false
 		}
 		c.wg.Done()
@@ -474,7 +489,8 @@ func (c *client) executeReadLoop(cborReader *cbor.Decoder) {
 				err,
 			)
 			// This is fatal since the entire structure of the runtime message is invalid.
-			c.sendErrorToAll(fmt.Errorf("failed to read or decode runtime message (%w)", err))
+			c.sendErrorToAllAndStopReadLoop(fmt.Errorf("failed to read or decode runtime message (%w)", err))
+			alreadyStopped = true
 			return
 		}
 		switch runtimeMessage.MessageID {
@@ -484,6 +500,7 @@ func (c *client) executeReadLoop(cborReader *cbor.Decoder) {
 			c.handleSignalMessage(runtimeMessage)
 		case MessageTypeError:
 			if c.handleErrorMessage(runtimeMessage) {
+				alreadyStopped = true
 				return // Fatal
 			}
 		default:
@@ -495,7 +512,7 @@ func (c *client) executeReadLoop(cborReader *cbor.Decoder) {
 		}
 		// The non-error exit condition is having no more entries remaining.
 		if c.stopReadLoopIfIdle() {
-			stoppedWhenIdle = true
+			alreadyStopped = true
 			return
 		}
 	}
